@@ -63,6 +63,21 @@ func vfRatchetRun(t testing.TB, sc vfScript, gtypes []string) []map[string]any {
 		sort.Ints(cids)
 		return map[string]any{"ck": vfProjCK(ctx, wd.recv.ds, gpkRaw, dpk), "pre": pre, "cid": cids, "refs": vfProjRefs(ctx, wd.recv.ds, gpkRaw, dpk)}
 	}
+	// results handed to the caller are kept and compared again after every later call: what an open
+	// returned must stay the original payload (a result that aliases a buffer the store reuses does not)
+	type vfKept struct {
+		got  func() []byte
+		want []byte
+	}
+	var kept []vfKept
+	keptOK := func() bool {
+		for _, k := range kept {
+			if !bytes.Equal(k.got(), k.want) {
+				return false
+			}
+		}
+		return true
+	}
 	for i, st := range sc.Steps {
 		s := wd.senders[st.D]
 		ev := map[string]any{"ev": st.Act, "d": st.D, "i": i}
@@ -103,11 +118,14 @@ func vfRatchetRun(t testing.TB, sc vfScript, gtypes []string) []map[string]any {
 					ev["pk"] = int(hdr.Counter)
 					ev["pdev"] = bytes.Equal(hdr.DevicePk, vfRaw(s.omd.Device()))
 					ev["same"] = bytes.Equal(got, m.payload)
+					want := m.payload
+					kept = append(kept, vfKept{got: func() []byte { b, _ := proto.Marshal(em); return b }, want: want})
 				}
 			} else {
 				ev["hdrerr"] = true
 			}
 			ev["ok"] = okv
+			ev["kept"] = keptOK()
 			ev["st"] = proj(st.D)
 		case "push":
 			m := msgs[st.D][st.X]
@@ -125,7 +143,10 @@ func vfRatchetRun(t testing.TB, sc vfScript, gtypes []string) []map[string]any {
 				ev["pdev"] = bytes.Equal(om.DevicePk, vfRaw(s.omd.Device()))
 				ev["same"] = bytes.Equal(clear, m.payload)
 				ev["pgroup"] = g2 != nil && bytes.Equal(g2.PublicKey, wd.g.PublicKey)
+				want := m.payload
+				kept = append(kept, vfKept{got: func() []byte { return clear }, want: want})
 			}
+			ev["kept"] = keptOK()
 			ev["st"] = proj(st.D)
 		case "refs":
 			err := wd.recv.ss.UpdateOutOfStoreGroupReferences(ctx, vfRaw(s.omd.Device()), uint64(st.X), wd.g)
